@@ -177,7 +177,21 @@ func explore(args []string) {
 				continue
 			}
 			vexp.RunOnce(sc, cfg, nil, false) // warm-up: lazily initialised globals (type-keyed pools, heaps) must exist before exploring
-			ex := &vexp.Explorer{Sc: sc, Params: cfg, B: b, Shard: *shard, NShards: *nshards, Split: 2, Deadline: deadline}
+			// the remaining budget is divided evenly over the configurations still to run (time a configuration does not
+			// use passes on to the later ones), so that every configuration completes at least its first layers
+			cfgDeadline := deadline
+			if !deadline.IsZero() {
+				left := 0
+				for cj := ci; cj < len(cfgs); cj++ {
+					if !byConfig || cj%*nshards == *shard {
+						left++
+					}
+				}
+				if rem := time.Until(deadline); rem > 0 && left > 1 {
+					cfgDeadline = time.Now().Add(rem / time.Duration(left))
+				}
+			}
+			ex := &vexp.Explorer{Sc: sc, Params: cfg, B: b, Shard: *shard, NShards: *nshards, Split: 2, Deadline: cfgDeadline}
 			if byConfig {
 				ex.Shard, ex.NShards = 0, 1
 			}
